@@ -133,7 +133,13 @@ func VerifC17FailClosed(k int) {
 			continue
 		}
 		var c config.PluginConfig
-		switch verifrt.Choice("defect", 10) {
+		switch verifrt.Choice("defect", 13) {
+		case 10: // the name is missing (a misspelled "name:" key decodes to this): which plugin was meant is unknown
+			c = config.PluginConfig{Config: map[string]interface{}{"apiKey": "sesame"}}
+		case 11:
+			c = config.PluginConfig{Name: " \t", Config: map[string]interface{}{"max_request_body": 8}}
+		case 12:
+			c = config.PluginConfig{Name: "\u00a0"}
 		case 0:
 			c = config.PluginConfig{Name: "no-such-plugin"}
 		case 1:
@@ -200,10 +206,7 @@ func VerifC17BuildTwice() {
 // non-empty key; otherwise it is answered 401 and neither later plugins nor the
 // backend see it.
 func VerifC17AuthGate(l int, hl int) {
-	key := verifrt.String("configuredKey", l)
-	for i := 0; i < len(key); i++ {
-		verifrt.Assume(key[i] < 0x80) // ASCII keys (includes every ASCII blank); multi-byte Unicode spaces are outside the string models
-	}
+	key := verifrt.String("configuredKey", l) // any bytes: ASCII blanks, multi-byte Unicode spaces, invalid UTF-8
 	var pc config.PluginsConfig
 	pc.Enabled = true
 	pc.Chain = []config.PluginConfig{{Name: "custom-auth", Config: map[string]interface{}{"apiKey": key}}}
